@@ -107,6 +107,21 @@ def main():
         print('HARNESS-ERROR property=%s unknown tier %r (quick | thorough)' % (pid, tier))
         sys.exit(2)
     res = common.Result(pid, tier)
+    # watchdog: a library call that never returns (a loop that no longer terminates) must not hang the check for ever.
+    # When the budget is spent the main thread is interrupted; if it is then executing code of the package under test the
+    # interruption is reported like any exception raised there (a violation with the call site and the harness locals).
+    import _thread
+    import threading
+    budget = float(os.environ.get('VERIF_BUDGET', '2400' if tier == 'quick' else '28800'))
+    fired = []
+
+    def fire():
+        fired.append(True)
+        _thread.interrupt_main()
+    dog = threading.Timer(budget, fire)
+    dog.daemon = True
+    if not os.environ.get('VERIF_CHILD'):
+        dog.start()
     try:
         mod = importlib.import_module('checks.' + pid.lower())
         if os.environ.get('VERIF_WARN_ERROR'):
@@ -135,6 +150,14 @@ def main():
     except Exception as e:
         traceback.print_exc()
         rc = escaped_exception(pid, res, e)
+    except KeyboardInterrupt as e:
+        if not fired:
+            raise
+        traceback.print_exc()
+        print('the check did not finish within its budget of %d s' % budget)
+        rc = escaped_exception(pid, res, e)
+    finally:
+        dog.cancel()
     sys.exit(rc)
 
 
@@ -160,7 +183,9 @@ def escaped_exception(pid, res, e):
                     loc[k] = repr(v)[:300]
                 except Exception:
                     loc[k] = '<unrepresentable>'
-        res.violation('the library raised %s: %s in a call the check makes on its generated inputs (%s:%d in %s)'
+        res.violation(('the library did not return within the budget of the check; interrupted at %s:%d in %s'
+                       % (os.path.basename(tb[-1].filename), tb[-1].lineno, tb[-1].name)) if isinstance(e, KeyboardInterrupt) else
+                      'the library raised %s: %s in a call the check makes on its generated inputs (%s:%d in %s)'
                       % (type(e).__name__, str(e)[:200], os.path.basename(tb[-1].filename), tb[-1].lineno, tb[-1].name),
                       {'exception': type(e).__name__, 'message': str(e)[:500],
                        'traceback': [(os.path.relpath(f.filename, repo) if os.path.realpath(f.filename).startswith(repo) else f.filename,
